@@ -14,6 +14,8 @@ A scenario (JSON-able, also the replay format):
   {"kind": "RULE",   "n": N, "src": {"g": adj, "t": [[u, v, bool]..]}}
   {"kind": "TYPED",  "n": N, "src": {"g": adj, "xi": [..], "zeta": [..], "tab": [[a, b, bool]..]}}
   {"kind": "TIMING", "n": N, "src": {"g": adj, "dur": [..], "delay": [[u, v, ticks]..]}, "inf": INF}
+  kinds "DRULE" / "DTYPED" / "DTIMING": the same with a DIRECTED contact network g (successor lists),
+  bound to the code as an nx.DiGraph
 after TLC:  + "adj" (H), "adm" ([[|In|,|Out|]..]), "weight" ([num, den] | None), "nlargest".
 """
 import hashlib
@@ -30,9 +32,22 @@ TICK = 0.5          # one tick of the specification = 0.5 time units (dyadic)
 TAU, GAMMA = 2.0, 1.0   # rates used for directed_percolate_network (distinct, so a draw's rate tells its kind)
 
 INVARIANTS = ["TypeOK", "Duality", "Partition", "ComponentsOK", "UndirectedOK", "BondOK",
-              "RuleOK", "FixpointAgree"]
+              "RuleOK", "ContactOK", "FixpointAgree"]
 INIT = {"DG": "InitDigraph", "BOND": "InitBond", "RULE": "InitRule", "TYPED": "InitTyped",
-        "TIMING": "InitTiming", "GIVEN": "InitGiven"}
+        "TIMING": "InitTiming", "GIVEN": "InitGiven",
+        "DRULE": "InitDRule", "DTYPED": "InitDTyped", "DTIMING": "InitDTiming"}
+BASE = {"DRULE": "RULE", "DTYPED": "TYPED", "DTIMING": "TIMING"}   # directed-contact-network kinds
+
+
+def base(kind):
+    return BASE.get(kind, kind)
+
+
+def contact_graph(sc, lab, order):
+    """the contact network of a rule scenario: nx.Graph, or nx.DiGraph for the D* kinds"""
+    if sc["kind"] in BASE:
+        return build_digraph(sc["n"], sc["src"]["g"], lab, order)
+    return build_graph(sc["n"], sc["src"]["g"], lab, order)
 
 
 # ----------------------------------------------------------------------------
@@ -61,7 +76,7 @@ def _fun(triples, val):
 
 
 def tla_src(sc):
-    k, s = sc["kind"], sc["src"]
+    k, s = base(sc["kind"]), sc["src"]
     if k == "DG":
         return _adj(s["adj"])
     if k == "BOND":
@@ -98,7 +113,8 @@ def _pfun(v):
 
 
 def parse_record(rec, n, inf):
-    _, kind, src, adj, adm, weight, nlargest = rec
+    _, kind0, src, adj, adm, weight, nlargest = rec
+    kind = base(kind0)
     if kind == "DG":
         s = {"adj": _padj(src)}
     elif kind == "BOND":
@@ -111,7 +127,7 @@ def parse_record(rec, n, inf):
         s = {"g": _padj(src["g"]), "dur": list(src["dur"]), "delay": _pfun(src["delay"])}
     else:
         raise ValueError(kind)
-    sc = {"kind": kind, "n": n, "src": s, "adj": _padj(adj),
+    sc = {"kind": kind0, "n": n, "src": s, "adj": _padj(adj),
           "adm": sorted([a, b] for a, b in adm["__set__"]),
           "weight": list(weight) if weight else None, "nlargest": nlargest}
     if kind == "TIMING":
@@ -563,7 +579,9 @@ def check_rule(sc):
     out = Out()
     n, s = sc["n"], sc["src"]
     g = s["g"]
-    if sc["kind"] == "RULE":
+    directed = sc["kind"] in BASE
+    pairs = "ordered neighbour pair" if not directed else "arc of the directed contact network"
+    if base(sc["kind"]) == "RULE":
         tx = tz = [0] * n
         table = {(u, v): b for u, v, b in s["t"]}
     else:
@@ -572,7 +590,7 @@ def check_rule(sc):
     for lab, order in (("int", "asc"), ("str", "desc")):
         L = LABELS[lab]
         inv = {L(u): u for u in range(1, n + 1)}
-        G = build_graph(n, g, lab, order)
+        G = contact_graph(sc, lab, order)
         xi = {L(u): ("xi", u, tx[u - 1]) for u in range(1, n + 1)}
         zeta = {L(u): ("zeta", u, tz[u - 1]) for u in range(1, n + 1)}
         expected = [(xi[L(u)], zeta[L(v)]) for (u, v) in dir_edges(g)]
@@ -583,12 +601,12 @@ def check_rule(sc):
             try:
                 if a[0] != "xi" or b[0] != "zeta":
                     return False
-                if sc["kind"] == "RULE":
+                if base(sc["kind"]) == "RULE":
                     return table.get((a[1], b[1]), True)
                 return table[(a[2], b[2])]
             except Exception:
                 return False
-        var = {"labels": lab, "order": order}
+        var = {"labels": lab, "order": order, "contact_network": "DiGraph" if directed else "Graph"}
         for entry in ("nonMarkov_directed_percolate_network", "estimate_nonMarkov_SIR_prob_size"):
             del log[:]
             out.evals += 1
@@ -597,7 +615,7 @@ def check_rule(sc):
             except Exception as ex:
                 out.bad(entry, "raises " + type(ex).__name__, sc["kind"], "raised %r on scenario %r" % (ex, s), sc, var)
                 continue
-            _compare_log(out, entry, ("transmission(xi[u], zeta[v])", "ordered neighbour pair"), log, expected, sc, var)
+            _compare_log(out, entry, ("transmission(xi[u], zeta[v])", pairs), log, expected, sc, var)
             if entry.startswith("estimate"):
                 why = answer_problem(res, n, sc["adm"])
                 out.bound += 1
@@ -620,7 +638,7 @@ def check_timing(sc):
     for lab, order, extra in (("int", "asc", False), ("str", "desc", True)):
         L = LABELS[lab]
         inv = {L(u): u for u in range(1, n + 1)}
-        G = build_graph(n, g, lab, order)
+        G = contact_graph(sc, lab, order)
         dur = {L(u): tick(s["dur"][u - 1], inf) for u in range(1, n + 1)}
         delay = {(L(u), L(v)): tick(d, inf) for u, v, d in s["delay"]}
         targs = ("T-arg", 7) if extra else ()
@@ -644,7 +662,8 @@ def check_timing(sc):
         for entry, kw in calls:
             del tlog[:]
             del rlog[:]
-            var = {"labels": lab, "order": order, "extra_args": extra, "kwargs": kw}
+            var = {"labels": lab, "order": order, "extra_args": extra, "kwargs": kw,
+                   "contact_network": "DiGraph" if sc["kind"] in BASE else "Graph"}
             out.evals += 1
             try:
                 if extra:
@@ -652,7 +671,7 @@ def check_timing(sc):
                 else:
                     res = getattr(EoN, entry)(G, trans_time_fxn, rec_time_fxn, **kw)
             except Exception as ex:
-                out.bad(entry, "raises " + type(ex).__name__, "TIMING", "raised %r on scenario %r" % (ex, s), sc, var)
+                out.bad(entry, "raises " + type(ex).__name__, sc["kind"], "raised %r on scenario %r" % (ex, s), sc, var)
                 continue
             _compare_log(out, entry, ("trans_time_fxn(u, v, *trans_time_args)", "ordered neighbour pair"), tlog, texp, sc, var)
             _compare_log(out, entry, ("rec_time_fxn(u, *rec_time_args)", "node"), rlog, rexp, sc, var)
